@@ -36,12 +36,15 @@ def run(ses, rep):
         ignoremodel.K_TOKENS, ignoremodel.K_LINES, ignoremodel.VISITS = 3, 3, 14
     rep.assumptions += ["node positions are byte offsets with end = offset after the last byte (full_moon); the range is inclusive (Range doc comment)",
                         "to_owned()/clone() of a full_moon node is lossless (full_moon contract)"]
-    rep.outside += ["statements wholly inside the range come out as in whole-file formatting (needs the whole formatter; replay scenarios only)",
-                    "the block-only visitors format_stmt_block / format_last_stmt_block are not encoded: a NotInRange statement is only "
-                    "checked to be handed to them"]
+    rep.outside += ["statements wholly inside the range come out as in whole-file formatting: only the indentation the block-only visitors hand to nested "
+                    "blocks is decided (visitor-shape kernel); the layout of the statements themselves needs the whole formatter (replay scenarios only)"]
     flagged = c08.analyses(ses, rep) + context_keeps_range(ses, rep)
+    try:
+        flagged += ignoremodel.analyse_visitor_shapes(ignoremodel.Model(ses, "default"), ses, rep)
+    except ignoremodel.Inconclusive as e:
+        rep.add("visitor-shape/encodable", "inconclusive", str(e)[:300], nontrivial=False)
     rep.samples.append({"flagged": [(f[0], f[1]) for f in flagged][:5]})
-    c08.confirm(rep, flagged, c08.RANGE_BATTERY, "C09", ("range", "both", "ignored-in-range", "output"))
+    c08.confirm(rep, flagged, c08.RANGE_BATTERY, "C09", ("range", "both", "ignored-in-range", "output", "visitor-shape"))
     c08.sort_requires_kernels(rep, ses, ("guard",), lambda n: "range" in n)
 
 
